@@ -12,6 +12,7 @@ curves, Carlson with identical curves == no hysteresis).
 """
 import bisect
 import math
+import os
 from fractions import Fraction
 
 from hypothesis import strategies as st
@@ -695,6 +696,13 @@ class C15(Check):
         if nontriv:
             labels.append("nontrivial")
         return nontriv, sha(sig, 16), sorted(set(labels))
+
+    def known_key(self, case, viol):
+        """VERIF_C15_IGNORE_KNOWN=key1,key2: treat these known_findings lines as absent (used to verify a fix of the
+        corresponding defect: the signature must then not occur at all)"""
+        key = viol.get("key")
+        ignored = [k for k in os.environ.get("VERIF_C15_IGNORE_KNOWN", "").split(",") if k]
+        return None if key in ignored else key
 
     def floors(self, tier):
         return {"nontrivial": 0.2, "mode:unscaled": 0.1, "mode:identity": 0.05, "mode:eps": 0.15, "mode:hyst": 0.15,
